@@ -15,7 +15,8 @@ from ..core import Check, h8
 from ..fsutil import DIR, Scratch, TreeModel, show, snap
 from .c10_atomic import apply_model
 
-INIT = {"a.py": b"A = 1\n", "b.py": b"B = 2\n", "d": DIR, "d/a.py": b"DA = 3\n", "d2": DIR, "d2/b.py": b"D2B = 4\n"}
+INIT = {"a.py": b"A = 1\n", "b.py": b"B = 2\n", "d": DIR, "d/a.py": b"DA = 3\n", "d2": DIR, "d2/b.py": b"D2B = 4\n",
+        "junk.pyc": b"junk\n", "junk2.pyc": b"junk2\n"}     # matched by the default ignored_resources
 
 # candidate do-events; each is a list of primitive ops (one ChangeSet); enabled by the model
 DO_EVENTS = [
@@ -28,6 +29,8 @@ DO_EVENTS = [
     [("WCR", "a.py")],
     # a change in a sibling folder whose name starts with the name of folder d; a change set without any change
     [("W", "d2/b.py")], [],
+    # a change set touching an ordinary and an ignored file (recorded), one touching only the ignored file (not recorded)
+    [("W", "a.py"), ("W", "junk.pyc")], [("W", "junk2.pyc")],
 ]
 DO_SMALL = [DO_EVENTS[i] for i in (0, 1, 2, 6, 8, 9, 11, 12, 16, 18)]
 
@@ -208,10 +211,11 @@ class Runner:
             feats += ["do:" + o[0] for o in ev[1]]
             if len(ev[1]) > 1:
                 feats.append("do:multi")
-            if ev[1]:
-                m.undo.append(e)      # a change set that touches no resource is performed but not recorded
+            if ev[1] and any(not o[1].endswith(".pyc") for o in ev[1]):
+                m.undo.append(e)      # a change set that touches no (non-ignored) resource is performed but not recorded
             else:
-                feats.append("do:empty")
+                feats.append("do:empty" if not ev[1] else "do:ignored-only")
+                e.apply(m.base, False)      # its effect stays for good: it belongs to the base of the "never made" oracle
             while len(m.undo) > max(m.limit, 0):
                 old = m.undo.pop(0)
                 old.apply(m.base, False)
@@ -337,7 +341,7 @@ class C11(Check):
     pid = "C11"
     case_timeout = 600
     level = "model_checking"
-    rule = ("states are event histories: all sequences of do(c) (21 change shapes over {a.py,b.py,d/,d/a.py,e/}, incl. "
+    rule = ("states are event histories: all sequences of do(c) (23 change shapes over {a.py,b.py,d/,d/a.py,e/}, incl. "
             "two-step sets and removals), undo(), redo(), undo(change=undo_list[i]), redo(change=redo_list[i]), undo(drop=True) "
             "enabled in the reference model, to depth d, for max_history_items in {0,1,2,32}; each sequence is replayed on a "
             "fresh real Project and its last step compared with the reference model (tree, both history lists, returned changes, "
